@@ -236,6 +236,38 @@ def gen_sys(ctx, n_random):
     return cases
 
 
+LONG_N = [65536 + d for d in (-3, -2, -1, 0, 1, 2, 3)] + [2 * 65536 + d for d in (-3, -2, -1, 0, 1, 2, 3)]
+
+
+def gen_long(ctx):
+    """long histories: tens of thousands of create/delete cycles of ONE key index between a store and the
+    reads (the generation stamp must not wrap before 2^32): through the real allocator functions ("r N d" in
+    sys / keys cases) and directly on the generation column ("r k N" in tree cases)"""
+    r = ctx.rng
+    cases = []
+    for idx in (0, 17, 1023):
+        for n in LONG_N:
+            P, Q = r.rng(1, 1 << 40), r.rng(1, 1 << 40)
+            ops = ["c 1"] * (idx + 1)
+            ops += ["s 0 %d %d" % (idx, P), "s 1 %d %d" % (idx, P + 1), "g 0 %d" % idx, "x %d" % idx,
+                    "r %d 3" % n,                      # n incarnations of the index come and go
+                    "c 5", "g 0 %d" % idx, "g 1 %d" % idx,          # nobody stored under this incarnation: NULL
+                    "s 0 %d %d" % (idx, Q), "g 0 %d" % idx, "g 1 %d" % idx,
+                    "x %d" % idx, "r 1 0", "c 2", "g 0 %d" % idx, "s 1 %d %d" % (idx, P), "g 1 %d" % idx]
+            cases.append("sys 2 %d %s" % (len(ops), " ".join(ops)))
+    for n in LONG_N:
+        k = r.choice([0, 3, 9])
+        ops = ["c %d" % (i + 1) for i in range(10)] + ["x %d" % k, "r %d 7" % n, "c 4", "x 2", "r 5 1", "c 9"]
+        cases.append("keys %d %s" % (len(ops), " ".join(ops)))
+    for k in (0, 16, 700, 1023):
+        for n in LONG_N:
+            P = r.rng(1, 1 << 40)
+            ops = ["s %d %d" % (k, P), "s %d %d" % (k ^ 1, P), "r %d %d" % (k, n), "g %d" % k, "g %d" % (k ^ 1),
+                   "s %d %d" % (k, P), "g %d" % k, "r %d %d" % (k ^ 1, 65536), "g %d" % (k ^ 1), "d"]
+            cases.append(tree_case(ops))
+    return cases
+
+
 def gen_conc(ctx, n_random):
     r = ctx.rng
     cases = [ABA_CASE]
@@ -310,10 +342,12 @@ def oracle_tree(case, out):
                 exp = d.get(k, 0) if 0 <= k < NK else 0
                 if got != "v%d" % exp:
                     return "load under key %d returned %s, the thread's last store there was %d" % (k, got, exp)
-            elif w[i] == "b":
-                k = int(w[i + 1]); i += 2; j += 1
-                if VARIANT["gen"]:
-                    d.pop(k, None)          # a new incarnation of the index: nothing stored under it yet
+            elif w[i] in ("b", "r"):
+                k = int(w[i + 1]); j += 1
+                n = int(w[i + 2]) if w[i] == "r" else 1
+                i += 3 if w[i] == "r" else 2
+                if VARIANT["gen"] and n > 0:
+                    d.pop(k, None)          # new incarnation(s) of the index: nothing stored under it yet
             elif w[i] == "d":
                 i += 1
                 nodes = parse_dump(o[j]); j += 1
@@ -361,9 +395,24 @@ def oracle_keys(case, out):
     live = {}
     try:
         n = int(w[1])
-        for i in range(n):
-            op, a = w[2 + 2 * i], int(w[3 + 2 * i])
-            r = int(o[1 + i])
+        i = 2
+        for q in range(n):
+            op, a = w[i], int(w[i + 1])
+            res = o[1 + q]
+            if op == "r":
+                i += 3
+                if res == "r-1":
+                    if len(live) != NK:
+                        return "creation failed with only %d live keys" % len(live)
+                elif res == "r!":
+                    return "a create/delete cycle handed out another index or gave back another destructor"
+                else:
+                    k = int(res[1:].split("x")[0])
+                    if k in live or not (0 <= k < NK):
+                        return "create/delete cycles ran on index %d, which is live or out of range" % k
+                continue
+            i += 2
+            r = int(res)
             if op == "c":
                 if r == -1:
                     if len(live) != NK:
@@ -412,6 +461,18 @@ def oracle_sys(case, out):
     try:
         while i < len(w):
             op = w[i]
+            if op == "r":
+                res = o[j]; j += 1; i += 3
+                if res == "r!":
+                    return "a create/delete cycle handed out another index or gave back another destructor", False
+                if res == "r-1":
+                    if len(live) != NK:
+                        return "creation failed with %d live keys" % len(live), False
+                    continue
+                k = int(res[1:].split("x")[0])
+                if k in live or not (0 <= k < NK):
+                    return "create/delete cycles ran on index %d, which is live or out of range" % k, False
+                continue          # the index is dead before and after; whatever threads stored there stays stale
             r = int(o[j]); j += 1
             if op == "c":
                 i += 2
@@ -661,6 +722,47 @@ def oracle_lib_full(out):
     return None
 
 
+def oracle_lib_memo(out):
+    """the property on the log of `c10_tls_lib memo`: getspecific returns the last value THIS thread stored under
+    THIS key, else NULL.  Returns (message, stats)."""
+    st = {"S1": 0, "S2": 0, "S3": 0, "S1_same_worker": 0, "S2_delete_on_other_worker": 0, "S3_migrated_and_back": 0}
+    if "done" not in out.split("\n"):
+        return "library run did not complete: " + out[-200:].strip(), st
+    msgs = {}
+    msg = None
+    for l in out.split("\n"):
+        w = l.split()
+        if not w or w[0] not in ("S1", "S2", "S3"):
+            continue
+        if msg is not None:
+            msgs.setdefault(msg.split()[0], msg); msg = None
+        st[w[0]] += 1
+        if w[0] == "S1":
+            it, key, wa, wb, r1, r2 = map(int, w[1:7])
+            st["S1_same_worker"] += 1 if wa == wb else 0
+            if (r1 or r2) and msg is None:
+                msg = ("S1 iteration %d: thread A (worker %d): setspecific(key %d, v); returns, is joined; thread B (worker %d, "
+                       "recycled descriptor), which never stored anything, reads getspecific = %d / %d under keys %d / %d "
+                       "(expected NULL)" % (it, wa, key, wb, r1, r2, key, key + 1))
+        elif w[0] == "S2":
+            it, ko, kn, wh, wm, r1 = map(int, w[1:7])
+            st["S2_delete_on_other_worker"] += 1 if wh != wm else 0
+            if r1 and msg is None:
+                msg = ("S2 iteration %d: thread H (worker %d): setspecific(key %d, v), getspecific; main (worker %d): "
+                       "key_delete(%d), key_create -> %d; H, which never stored under the new key, reads %d (expected NULL)"
+                       % (it, wh, ko, wm, ko, kn, r1))
+        else:
+            it, key, w1, w2, w3, v2, r1 = map(int, w[1:8])
+            st["S3_migrated_and_back"] += 1 if (w1 != w2 and w3 == w1) else 0
+            if r1 != v2 and msg is None:
+                msg = ("S3 iteration %d: thread T: setspecific(key %d, %d) on worker %d; creates a child, continues on worker "
+                       "%d: setspecific(key %d, %d); joins the child, resumes on worker %d: getspecific = %d (expected %d)"
+                       % (it, key, v2 - 1, w1, w2, key, v2, w3, r1, v2))
+    if msg is not None:
+        msgs.setdefault(msg.split()[0], msg)
+    return (" ;; ".join(msgs[k] for k in sorted(msgs)) if msgs else None), st
+
+
 def run_lib(ctx, libexe, args, timeout=60):
     rc, out = vlib.sh([libexe] + [str(a) for a in args], timeout=timeout,
                       env=dict(os.environ, MYTH_NUM_WORKERS="4"))
@@ -734,7 +836,10 @@ def run(ctx):
     listed -= set(x for x in os.environ.get("C10_TEST_UNLISTED", "").split(",") if x)
     aba_present, stale_present, vline, aba_out, stale_out = probe(unit)
     q = not ctx.thorough
-    cases = ["variant %d %d" % (int(gen), int(lock)), "consts"] + corpus_cases()
+    cases = ["variant %d %d" % (int(gen), int(lock)), "consts", "widths"] + corpus_cases()
+    n_long0 = len(cases)
+    cases += gen_long(ctx)
+    n_long = len(cases) - n_long0
     cases += gen_tree(ctx, 300 if q else 4000, gen)
     cases += gen_keys(ctx, 150 if q else 2500)
     cases += gen_sys(ctx, 200 if q else 3000)
@@ -742,6 +847,18 @@ def run(ctx):
     impl, rc1, raw1 = vlib.run_lines([unit], cases, timeout=240 if q else 900)
     model, rc2, raw2 = vlib.run_lines([drv], cases, timeout=900)
     diffs = vlib.diff_lines(cases, impl, model)
+    # width obligation from the current tree: both generation fields 4 bytes (the model's GEN_MOD = 2^32)
+    wi = cases.index("widths")
+    width_msg, widths = None, None
+    try:
+        widths = tuple(int(x) for x in impl[wi].split()[1:3])
+        if gen and (widths[0] != widths[1] or widths[0] < 4):
+            width_msg = ("the generation fields are %d bytes in the key table and %d bytes in the tree slot; the model's "
+                         "assumption `fewer than 2^32 - 1 operations` (C10_fresh_key_null, GEN_MOD = 2^32) needs both to "
+                         "be (at least) 4-byte counters of the same width" % widths)
+    except (IndexError, ValueError):
+        width_msg = "the harness did not report the widths of the generation fields: " + (impl[wi] if wi < len(impl) else "")
+    diffs = [d for d in diffs if d[1] != "widths"]
 
     kinds, failing, known_stale, known_aba, repaired = {}, [], [], [], []
     windows = 0
@@ -755,7 +872,7 @@ def run(ctx):
                             "timeout) after %d of %d cases" % (rc1, min(i, len(impl)), len(cases))))
             break
         out = impl[i]
-        if k in ("consts", "variant"):
+        if k in ("consts", "variant", "widths"):
             continue
         msg, flag = oracle_unit(c, out)
         if k == "conc":
@@ -845,6 +962,18 @@ def run(ctx):
                 lib_fail.append((" ".join(map(str, args)), out[-200:],
                                  "with %d creation requests %d succeeded (expected exactly %d)" % (len(res), nok, min(NK, len(res)))))
 
+    # reads by threads that never stored (recycled descriptors), delete + re-create on another worker,
+    # store / migrate / store / migrate back / read - through the library's exported functions
+    memo_stats = []
+    for W in (1, 2, 3, 4):
+        args = ["memo", W, 12 if q else 60, ctx.rng.next() % 1000000007]
+        rc, out = run_lib(ctx, libexe, args)
+        lib_runs += 1
+        mm, st = oracle_lib_memo(out)
+        st["args"] = " ".join(map(str, args)); memo_stats.append(st)
+        if mm:
+            lib_fail.append((" ".join(map(str, args)), out[-600:], mm))
+
     labels_ok, ids, lablog = check_labels(ctx, lock)
 
     # ---- evidence ----
@@ -869,7 +998,8 @@ def run(ctx):
         "concurrent_allocator": {"schedule_entries": cstats["entries"], "failed_cas_retries": cstats["cas_fail"],
                                  "cases_entering_aba_window": windows, "cases_with_duplicate_or_corrupt_head": len(known_aba)},
         "stale_pattern_cases": len(known_stale),
-        "library_runs": lib_runs + 2, "library_stats": lib_stats[:8],
+        "long_histories": {"cases": n_long, "cycles_per_case": LONG_N, "generation_field_bytes": widths},
+        "library_runs": lib_runs + 2, "library_stats": lib_stats[:8], "library_memo_runs": memo_stats,
         "point_ids_in_source": ids, "labels_match_model": labels_ok}
     ctx.cov["evaluations"] = len(cases) + lib_runs + 2
     ctx.cov["distinct_nontrivial"] = len(set(cases)) - 2
@@ -941,6 +1071,10 @@ def run(ctx):
                       {"theorem_or_correspondence": "correspondence Tls/Tls{Tree,Keys,KeysLock,Sys}Model.v <-> src/myth_tls_func.h",
                        "case": c, "observed": a[:2000], "expected": b[:2000],
                        "all": [(x[1][:200], x[2][:200], x[3][:200]) for x in diffs[:20]]}, found=False)
+    if width_msg and not failing and not lib_fail:
+        ctx.violation("assumption", width_msg, {"theorem_or_correspondence": "assumption of C10_fresh_key_null / "
+                      "C10_cycles_closed_form: 32-bit generation counter (Tls/TlsKeysModel.v GEN_MOD)",
+                      "observed": "sizeof(gen) = %s" % (widths,), "expected": "(4, 4)"}, found=False)
     if not labels_ok:
         ctx.violation("generated-data", "the MYTH_VERIF hook ids of the source (%s) are not the model's step labels" % ids,
                       {"theorem_or_correspondence": "labels_match (generated)", "log": lablog}, found=False)
@@ -982,7 +1116,8 @@ def replay(ctx, path):
         print("library run:", body["lib_args"])
         print(out[-3000:])
         a = body["lib_args"].split()[0]
-        print("oracle:", oracle_lib_run(out)[0] if a == "run" else (oracle_lib_full(out) if a == "full" else "see output"))
+        print("oracle:", oracle_lib_run(out)[0] if a == "run" else (oracle_lib_full(out) if a == "full" else
+              (oracle_lib_memo(out)[0] if a == "memo" else "see output")))
     else:
         print(json.dumps(body, indent=1)[:3000])
     return 0
